@@ -47,9 +47,9 @@ Proof.
 Qed.
 Print Assumptions C08_table_partial.
 
-(* non-vacuity of the guard: 7910 of the 8320 cells satisfy it, among them 145 of the 167 Must cells *)
+(* non-vacuity of the guard: 7912 of the 8320 cells satisfy it, among them 145 of the 167 Must cells *)
 Example C08_table_partial_nonvacuous :
-  N.of_nat (length (filter (fun c => is_none (cause_of H c)) all_cells)) = 7910%N /\
+  N.of_nat (length (filter (fun c => is_none (cause_of H c)) all_cells)) = 7912%N /\
   length (filter (fun c => is_none (cause_of H c) && match spec_of H c with Must _ => true | _ => false end) all_cells) = 145 /\
   cause_of H {| c_n := 3; c_op := Mul; c_l := Obj Twist3; c_r := Obj SE3 |} = None /\
   model H {| c_n := 3; c_op := Mul; c_l := Obj Twist3; c_r := Obj SE3 |} = Value (RObj SE3) Computed.
@@ -70,11 +70,11 @@ Proof.
 Qed.
 Print Assumptions C08_causes_exact.
 
-(* how many cells each root cause accounts for (410 in all) *)
+(* how many cells each root cause accounts for (408 in all) *)
 Theorem C08_cause_census :
   map (fun k => length (filter (fun c => match cause_of H c with Some k' => cause_beq k k' | None => false end) all_cells))
-      [Op2FallThrough; IsinstanceAsym; UserListAdd; UserListRepeat; TwistRmulMulti; DQMulNone; UserListEq; PluckerEqMulti]
-  = [268; 8; 28; 8; 2; 74; 20; 2].
+      [Op2FallThrough; IsinstanceAsym; UserListAdd; UserListRepeat; DQMulNone; UserListEq; PluckerEqMulti]
+  = [268; 8; 28; 8; 74; 20; 2].
 Proof. vm_compute. reflexivity. Qed.
 Print Assumptions C08_cause_census.
 
@@ -137,6 +137,6 @@ Proof.
 Qed.
 Print Assumptions C08_extended_causes_exact.
 Example C08_extended_nonvacuous :
-  N.of_nat (length ext_cells) = 28160%N /\ N.of_nat (length (filter (fun c => is_none (cause_of H c)) ext_cells)) = 26968%N.
+  N.of_nat (length ext_cells) = 28160%N /\ N.of_nat (length (filter (fun c => is_none (cause_of H c)) ext_cells)) = 26974%N.
 Proof. vm_compute. split; reflexivity. Qed.
 
